@@ -221,9 +221,13 @@ func (s *mLogStore) DeleteRange(min, max uint64) error {
 }
 
 // flavours
-type mMonoLogStore struct{ *mLogStore }
+// mMonoLogStore implements MonotonicLogStore; like LogCache it may be a shim that answers false
+type mMonoLogStore struct {
+	*mLogStore
+	notMonotonic bool
+}
 
-func (s mMonoLogStore) IsMonotonic() bool { return true }
+func (s mMonoLogStore) IsMonotonic() bool { return !s.notMonotonic }
 
 type mCommitLogStore struct {
 	*mLogStore
